@@ -40,7 +40,7 @@ func cmdReplay(args []string) int {
 		var cmd *exec.Cmd
 		switch sv {
 		case "cvc5":
-			cmd = exec.Command("cvc5", "--tlimit=30000", smt)
+			cmd = exec.Command("cvc5", "--tlimit=30000", "--force-logic=ALL", smt)
 		default:
 			cmd = exec.Command(sv, "-T:30", smt)
 		}
